@@ -319,4 +319,71 @@ def initOutputs (outs : List (String × FieldKind)) (nvar : Nat) : List (Emit.Ar
     | .optional => Emit.Arg.opt (some f.1)
     | .variadic => Emit.Arg.variadic ((List.range nvar).map fun i => f.1 ++ "_" ++ toString i)
 
+/-! ## the call with every *spelling* of a keyword argument, error branch included
+
+`conforming_call` above speaks about well-formed calls only. The generated constructors also decide
+what happens for the other spellings of an attribute argument — left out, `None`, a value that is not
+of the attribute's kind — and the property's "requiredness and default values" is about exactly that:
+`AttrX(value, name=…)` validates (`Attr._validate`, `AttrDtype._validate` → `dtype_to_tensor_type`,
+`_AttrIterable.__init__` → `tuple(value)`; all leave with `TypeError`), `AttrX.maybe(None, …)` is
+`None` (attribute absent), `AttrX(None, …)` raises — it never invents a value. -/
+
+/-- How the caller spells one keyword argument. `bad` = a value that is not of the attribute's kind. -/
+inductive Spell where
+  | omitted | none | ok (v : Val) | bad
+  deriving Repr, DecidableEq
+
+/-- What the parameter is bound to when the function body starts: the spelled value, else the
+    signature default. `Option.none` = Python's own `TypeError` (required keyword-only argument
+    missing). -/
+def bound (ps : List Param) (n : String) : Spell → Option Spell
+  | .omitted => match findParam ps n with
+    | some p => match p.default with
+      | some Val.none => some Spell.none
+      | some v => some (Spell.ok v)
+      | Option.none => Option.none
+    | Option.none => Option.none
+  | s => some s
+
+/-- `AttrX(value, name=…)` (`w.maybe = false`) / `AttrX.maybe(value, name=…)`.
+    Outer `Option.none` = the constructor leaves with `TypeError`. -/
+def mkAttr (w : AttrWire) : Spell → Option (Option (String × Val))
+  | .ok v => some (some (w.onnxName, encode w.kind v))
+  | .none => if w.maybe then some Option.none else Option.none
+  | .bad => Option.none
+  | .omitted => Option.none
+
+/-- one keyword of the `Attributes(...)` expression -/
+def callAttrE (ps : List Param) (spelled : String → Spell) (w : AttrWire) :
+    Option (Option (String × Val)) :=
+  match bound ps w.param (spelled w.param) with
+  | some sp => mkAttr w sp
+  | Option.none => Option.none
+
+/-- all results, or `none` as soon as one of them is `none` (an exception leaves the call) -/
+def allSome {γ : Type} : List (Option γ) → Option (List γ)
+  | [] => some []
+  | Option.none :: _ => Option.none
+  | some a :: rest => match allSome rest with
+    | some l => some (a :: l)
+    | Option.none => Option.none
+
+/-- The `Attributes(...)` object of a call with arbitrary spellings; `none` = `TypeError`. -/
+def callAttrsE (c : Ctor) (spelled : String → Spell) : Option (List (Option (String × Val))) :=
+  allSome (c.attrWires.map (callAttrE c.params spelled))
+
+/-- The schema-level reading of a spelling: is the call refused? -/
+def rejects (a : SAttr) : Spell → Bool
+  | .bad => true
+  | .omitted => a.required
+  | .none => a.required || a.default != Val.none
+  | .ok _ => false
+
+/-- The schema-level reading of an accepted spelling: the value given under the schema name, else
+    the schema default if there is one, else nothing. -/
+def acceptedAttr (spelled : String → Spell) (a : SAttr) (w : AttrWire) : Option (String × Val) :=
+  match spelled a.name with
+  | .ok v => some (a.name, encode w.kind v)
+  | _ => if a.default == Val.none then Option.none else some (a.name, a.default)
+
 end Conform
